@@ -91,8 +91,14 @@ static void op_badcall(World &W, const Json &op) {
         // fr without the last fragment so that the destination is genuinely missing
         rc = liberasurecode_reconstruct_fragment(desc, (mask & 1) ? nullptr : fr.data(), num, fl, dest, (mask & 16) ? nullptr : (char *) out);
     } else if (api == "fragments_needed") {
-        std::vector<int> R = {0, -1}, X = {-1}, N((size_t) n + 2, 0);
-        int *Rp = (int *) thread_arena().place((u8 *) R.data(), 8, Arena::RIGHT), *Xp = (int *) thread_arena().place((u8 *) X.data(), 4, Arena::RIGHT);
+        // mask 8 / 16: an index outside 0..k+m-1 in the rebuild / exclude list (the lists are -1 terminated, so only values >= k+m)
+        int nn = s.live ? s.cfg.n() : n;
+        static const int big[] = {0, 1, 2, 32, 33, 63, 64, 65, 100, 1000, 1000000, INT_MAX, INT_MAX - 1, 1 << 30, 255, 31};
+        int bad = big[var & 15]; if (bad < 3) bad += nn; if (bad < nn) bad = nn;
+        std::vector<int> R = {0, -1}, X = {-1}, N((size_t) n + 70, 0);
+        if (mask & 8) { if (var & 4) R = {bad, -1}; else R = {0, bad, -1}; }
+        if (mask & 16) { if (var & 2) X = {1 % nn, bad, -1}; else X = {bad, -1}; }
+        int *Rp = (int *) thread_arena().place((u8 *) R.data(), R.size() * 4, Arena::RIGHT), *Xp = (int *) thread_arena().place((u8 *) X.data(), X.size() * 4, Arena::RIGHT);
         rc = liberasurecode_fragments_needed(desc, (mask & 1) ? nullptr : Rp, (mask & 2) ? nullptr : Xp, (mask & 4) ? nullptr : N.data());
     } else if (api == "get_fragment_metadata") {
         fragment_metadata_t md; memset(&md, 0, sizeof md);
